@@ -343,6 +343,11 @@ func (c *conn) journalled(kind, query string, args []Value, f func() ([]*result,
 		if flt.Action == "drop" {
 			c.die()
 			err = mysql.ErrInvalidConn
+		} else if flt.Action == "cancel" {
+			if s.cancelFn != nil {
+				s.cancelFn()
+			}
+			err = context.Canceled
 		} else {
 			err = myErr(flt.ErrNo, "fakedb: injected fault")
 		}
